@@ -461,6 +461,43 @@ func (e *Engine) verifyFunc(fn *ssa.Function, c *Contract) (rep *FuncReport) {
 		}()
 	}
 	prefix := fmt.Sprintf("%s.%s#", rep.Pkg, c.Key)
+	// behavioural subtyping, precondition half: a method that implements an interface method under
+	// contract may require no more than that contract does (callers through the interface only
+	// establish the interface's precondition). ASSUMED: the interface value holds a non-nil receiver.
+	for _, ic := range e.ifaceContractsFor(fn) {
+		s2 := st.clone()
+		if len(s2.fr.params) > 0 && len(s2.fr.params[0].L) == 1 {
+			if _, isPtr := s2.fr.params[0].T.Underlying().(*types.Pointer); isPtr {
+				s2.assume(Ne(s2.fr.params[0].L[0], I(0)))
+			}
+		}
+		ienv := e.ifaceEnv(s2, fn, ic, nil)
+		ienv.old = nil
+		okPre := true
+		for _, rq := range ic.Requires {
+			t, err := s2.evalClause(ienv, rq)
+			if err != nil {
+				s2.bindFail(fmt.Sprintf("%sbind[requires of %s]", prefix, ic.Key), err)
+				okPre = false
+				continue
+			}
+			s2.assume(t)
+		}
+		if !okPre {
+			continue
+		}
+		env2 := s2.specEnv("requires")
+		env2.old = nil
+		for i, rq := range c.Requires {
+			t, err := s2.evalClause(env2, rq)
+			if err != nil {
+				continue // reported below as a bind failure of the requires clause
+			}
+			s2.obligeNamed(fmt.Sprintf("%srefines-pre[%s]#%d", prefix, ic.Key, i+1), "refines", "", t,
+				fmt.Sprintf("precondition of this implementation follows from the precondition of %s: %s", ic.Key, rq.Text))
+		}
+		ctx.note("interface values on which %s is called hold a non-nil receiver (ASSUMED)", ic.Key)
+	}
 	// requires / assumes
 	env := st.specEnv("requires")
 	env.old = nil
